@@ -215,7 +215,7 @@ func strideRuleN(p *core.Program, r *core.Report, rule string, targets []strideT
 					} else if v.C != 0 {
 						bad = fmt.Sprintf("index at %s is %s: a whole-coordinate loop shifted by %d ordinates", pos, v, v.C)
 					}
-				case v.C < 0 || v.C > maxC:
+				case v.C < 0 || v.C+v.W > maxC:
 					bad = fmt.Sprintf("index at %s is %s: ordinate %d of a coordinate is not an X/Y%s ordinate (with stride 2 this reads the neighbouring coordinate)", pos, v, v.C, map[bool]string{true: "/Z", false: ""}[f.kind == "xyz"])
 				}
 				continue
@@ -224,7 +224,7 @@ func strideRuleN(p *core.Program, r *core.Report, rule string, targets []strideT
 			switch {
 			case v.Top || (!s.Hi.Bot && s.Hi.Top):
 				undecided = fmt.Sprintf("slice bounds at %s cannot be classified", pos)
-			case v.K || v.E || v.C != 0:
+			case v.K || v.E || v.C != 0 || v.W != 0:
 				bad = fmt.Sprintf("slice at %s starts at %s, not at a coordinate boundary", pos, v)
 			case !s.Hi.Bot:
 				sp := s.Span
@@ -267,7 +267,7 @@ func strideRuleN(p *core.Program, r *core.Report, rule string, targets []strideT
 				undecided = fmt.Sprintf("ordinate move at %s (dst %s, src %s) cannot be slot-matched", pos, mv.Dst, mv.Src)
 				continue
 			}
-			if mv.Dst.K != mv.Src.K || mv.Dst.C != mv.Src.C {
+			if mv.Dst.K != mv.Src.K || mv.Dst.C != mv.Src.C || mv.Dst.W != mv.Src.W {
 				bad = fmt.Sprintf("ordinate move at %s stores slot %s from slot %s: an ordinate is carried into a different dimension", pos, slotOf(mv.Dst), slotOf(mv.Src))
 			}
 		}
@@ -275,7 +275,7 @@ func strideRuleN(p *core.Program, r *core.Report, rule string, targets []strideT
 			if c.Val.Bot {
 				continue
 			}
-			if c.Val.Top || c.Val.K || c.Val.E || c.Val.C != 0 {
+			if c.Val.Top || c.Val.K || c.Val.E || c.Val.C != 0 || c.Val.W != 0 {
 				bad = fmt.Sprintf("offset argument %s of %s at %s is %s, not a coordinate boundary", c.Param, c.Callee.Name(), p.Pos(c.Call.Pos()), c.Val)
 			}
 		}
